@@ -648,7 +648,12 @@ def check_C08(tier, seed):
     behs += run.export("Mode", "walks", "BEH", constants=dict(base, NIter=2, MaxBlocks=3, MaxLen=14 if quick else 30),
                        invariants=("Export",), constraint="Bound", simulate=1500 if quick else 40000,
                        depth=15 if quick else 31, count=False)
+    # each behaviour once with the plain comparison query and once (thorough: three times) with query shapes drawn per iterator
+    rng = random.Random(seed)
     cases = [{"id": k + 1, "family": "mode", "niter": 2, "nrows": 2, "evs": b} for k, b in enumerate(behs)]
+    for _ in range(1 if quick else 3):
+        cases += [{"id": len(cases) + k + 1, "family": "mode", "niter": 2, "nrows": 2, "evs": b,
+                   "shapes": [rng.randrange(10), rng.randrange(10)]} for k, b in enumerate(behs)]
     traces = run.replay(cases)
     rej = run.validate_with("TraceMode", traces, dict(base))
     by_id = {c["id"]: c for c in cases}
